@@ -22,6 +22,9 @@ type C11Op struct {
 	I int    `json:"i"`
 	V int64  `json:"v"`
 	B int    `json:"b,omitempty"` // wire: bits of the receiving storage before Fix
+	// Pre (wire): widths of arrays the receiving storage decodes (ReadFrom + Fix) BEFORE the one under test - a
+	// receiver that is decoded into again and again, as a chunk section's storage is
+	Pre []int `json:"pre,omitempty"`
 }
 
 type C11Case struct {
@@ -178,6 +181,27 @@ func c11Check(c C11Case) *pbt.Violation {
 				return pbt.V("c11.wire.form", "wire form is VarInt count + big-endian longs", "%s: wrote % x (n=%d err=%v), want % x", step, clipB(buf.Bytes()), wn, err, clipB(w.B))
 			}
 			dst := level.NewBitStorage(op.B, n, nil)
+			for pi, pw := range op.Pre {
+				vals := make([]uint64, n)
+				for i := range vals {
+					if pw > 0 {
+						vals[i] = uint64(i*7+pi+1) & (1<<uint(pw) - 1)
+					}
+				}
+				var pwire wire.W
+				pl := rb.Pack(vals, pw)
+				pwire.VarInt(int32(len(pl)))
+				for _, l := range pl {
+					pwire.U64(l)
+				}
+				if pv, stack := pbt.Try(func() {
+					if _, err := dst.ReadFrom(bytes.NewReader(pwire.B)); err == nil {
+						_ = dst.Fix(pw)
+					}
+				}); pv != nil {
+					return pbt.V(pbt.PanicKey("c11.readfrom", stack), "no panic", "%s: earlier decode #%d (width %d) into the receiving storage panicked: %v", step, pi, pw, pv)
+				}
+			}
 			rd := iox.NewSrc(append(buf.Bytes(), 0xA5))
 			var reader io.Reader = iox.ByteSrc{Src: rd}
 			if op.V%3 != 0 {
@@ -194,14 +218,14 @@ func c11Check(c C11Case) *pbt.Violation {
 				return pbt.V("c11.wire.read", "wire round trip consumes what was written", "%s: ReadFrom (read plan %v) n=%d err=%v left=%d, want n=%d left=1", step, rd.Plan, rn, err, len(rd.Rest()), len(w.B))
 			}
 			if err := dst.Fix(b); err != nil {
-				return pbt.V("c11.wire.fix", "wire round trip followed by Fix", "%s: Fix(%d) after reading %d longs for n=%d: %v", step, b, len(longs), n, err)
+				return pbt.V("c11.wire.fix", "wire round trip followed by Fix", "%s: Fix(%d) after reading %d longs for n=%d (receiver created with %d bits, earlier decodes of widths %v): %v", step, b, len(longs), n, op.B, op.Pre, err)
 			}
 			if op.V%5 == 3 {
 				// keep working on the storage that was written out (it will be written again later); the
 				// received copy must equal the model now
 				for i := 0; i < n; i++ {
 					if got := dst.Get(i); uint64(got) != model[i] {
-						return pbt.V("c11.wire.value", "the raw longs survive the wire round-trip followed by Fix", "%s: received Get(%d)=%d, model %d (bits %d n %d)", step, i, got, model[i], b, n)
+						return pbt.V("c11.wire.value", "the raw longs survive the wire round-trip followed by Fix", "%s: received Get(%d)=%d, model %d (bits %d n %d, receiver created with %d bits, earlier decodes of widths %v)", step, i, got, model[i], b, n, op.B, op.Pre)
 					}
 				}
 			} else {
@@ -333,6 +357,9 @@ func genC11(t *rapid.T) C11Case {
 		if k == "wire" {
 			op.B = rapid.SampledFrom([]int{0, c.Bits, 1, 5, 32}).Draw(t, "dstbits")
 			op.V = int64(rapid.IntRange(0, 1000).Draw(t, "readplan")) // how the reader fragments the stream
+			if rapid.IntRange(0, 2).Draw(t, "predecodes") == 0 {
+				op.Pre = rapid.SliceOfN(rapid.SampledFrom([]int{0, 0, c.Bits, c.Bits, 1, 4, 5, 32}), 1, 4).Draw(t, "pre")
+			}
 		}
 		if k == "badindex" || k == "badvalue" || k == "wronglen" || k == "wirefail" {
 			op.I = rapid.IntRange(0, 1000).Draw(t, "sel")
